@@ -33,7 +33,8 @@ RULE = ('connect: client.connect(MemoryReactorClock, address) for address lists 
         'the notification - completes after connectionLost returned (clock run dry). Non-trivial = '
         'a crash point strictly between connection and Hello reply, or >=1 call with a timer, or >=1 proxy callback, or '
         'a re-entrant action; distinct = distinct case JSON. Loss histories include calls answered synchronously (inside '
-        'transport.write) and a close requested by the application before the transport reports the loss.')
+        'transport.write) and a close requested by the application before the transport reports the loss. Address lists mix '
+        'unix:path= and unix:abstract= entries in both orders.')
 ASSUMPTIONS = ['proxies are kept strongly referenced by the harness (the registry is weak by design)',
                'user callbacks neither raise nor re-enter callRemote']
 
@@ -254,7 +255,11 @@ def _total(kind):
 
 def enum_connect(tier):
     lists = [['unix'], ['tcp'], ['nonce'], ['unix', 'tcp'], ['tcp', 'unix', 'nonce'], ['nonce', 'tcp', 'unix', 'tcp'],
-             ['unix-guid', 'tcp'], ['unix-abstract', 'unix']]
+             ['unix-guid', 'tcp'], ['unix-abstract', 'unix'],
+             # the forms of one transport mixed in one list, each form before and after the other (what one entry said must
+             # not colour the next)
+             ['unix', 'unix-abstract'], ['unix-guid', 'unix-abstract', 'tcp'], ['tcp', 'unix', 'unix-abstract', 'unix'],
+             ['nonce', 'tcp'], ['unix-abstract', 'unix-abstract']]
     if tier == 'thorough':
         lists += [list(p) for p in itertools.product(['unix', 'tcp', 'nonce'], repeat=3)]
     seen = set()
